@@ -1,1 +1,134 @@
-fn main() { eprintln!("not built yet"); std::process::exit(2); }
+//! C18 — WDT and WDL map files survive write -> parse; tile <-> world coordinates invert.
+//!
+//! Bounded exhaustive exploration of map definitions (see `c.rule` in `main`), judged by
+//!  * an independent chunk walker (`walker.rs`, written from /repo/docs) over the written bytes,
+//!  * field-by-field comparison of `read(write(f))` with the definition,
+//!  * byte identity of the second write,
+//!  * tile-data preservation of `convert_wdt` / `convert_wdl_file` for all version pairs,
+//!  * `world_to_tile(tile_to_world(x,y)) == (x,y)` for all 4096 tiles.
+//!
+//! `c18 --repro coords` prints a stand-alone reproduction of the coordinate finding.
+mod walker;
+mod wdl;
+mod wdt;
+
+use serde_json::{json, Value};
+use vcore::*;
+
+/// one case per tile
+struct Coords;
+const TILE: f64 = 533.33333; // docs/src/resources/coordinates.md, docs/src/formats/world-data/wdt.md
+impl Space for Coords {
+    fn len(&self) -> u64 {
+        4096
+    }
+    fn describe(&self, i: u64) -> Value {
+        json!({"space": "coords", "tile_x": i % 64, "tile_y": i / 64})
+    }
+    fn run(&self, i: u64) -> CaseResult {
+        let (x, y) = ((i % 64) as u32, (i / 64) as u32);
+        let mut r = CaseResult::new();
+        r.key = format!("coords:{x},{y}");
+        r.nontrivial = true;
+        let (wx, wy) = wow_wdt::tile_to_world(x, y);
+        // documented formula: world_x = (32 - tile_y) * TILE, world_y = (32 - tile_x) * TILE (corner of the tile)
+        let (rx, ry) = ((32.0 - y as f64) * TILE, (32.0 - x as f64) * TILE);
+        if (wx as f64 - rx).abs() > 0.05 || (wy as f64 - ry).abs() > 0.05 {
+            r.viol("coords: tile_to_world differs from the documented formula (axis mapping / tile size)", format!("tile ({x},{y}) got ({wx},{wy}) documented ({rx:.3},{ry:.3})"));
+        }
+        let (tx, ty) = wow_wdt::world_to_tile(wx, wy);
+        r.count("coords_inversions", 1);
+        if (tx, ty) == (x, y) {
+            r.outcome = "inverts".into();
+        } else if (tx == x || tx + 1 == x) && (ty == y || ty + 1 == y) {
+            r.outcome = "lands on lower neighbour".into();
+            r.viol(
+                "coords: world_to_tile(tile_to_world(x,y)) returns the adjacent lower tile index (f32 division truncated at the tile edge)",
+                format!("tile ({x},{y}) -> world ({wx},{wy}) -> tile ({tx},{ty})"),
+            );
+        } else {
+            r.outcome = "lands elsewhere".into();
+            r.viol("coords: world_to_tile(tile_to_world(x,y)) returns a non-adjacent tile (axis swap / scale / offset)", format!("tile ({x},{y}) -> world ({wx},{wy}) -> tile ({tx},{ty})"));
+        }
+        // interior point of the tile (robust against edge rounding): separates formula defects from the edge defect
+        let (cx, cy) = ((rx - TILE / 2.0) as f32, (ry - TILE / 2.0) as f32);
+        let (mx, my) = wow_wdt::world_to_tile(cx, cy);
+        if (mx, my) != (x, y) {
+            r.viol("coords: world_to_tile(centre of tile) is not that tile (axis swap / scale / offset)", format!("tile ({x},{y}) centre ({cx},{cy}) -> ({mx},{my})"));
+        }
+        r
+    }
+}
+
+fn build(name: &str, _arg: &str, tier: Tier) -> Box<dyn Space> {
+    match name {
+        "coords" => Box::new(Coords),
+        "wdt_main" => Box::new(wdt::WdtRoundtrip::main(tier)),
+        "wdt_single" => Box::new(wdt::WdtRoundtrip::single(tier)),
+        "wdt_flags" => Box::new(wdt::WdtRoundtrip::flags(tier)),
+        "wdt_conv" => Box::new(wdt::WdtConv::new(tier)),
+        "wdl_main" => Box::new(wdl::WdlRoundtrip::main(tier)),
+        "wdl_single" => Box::new(wdl::WdlRoundtrip::single(tier)),
+        "wdl_pairs" => Box::new(wdl::WdlPairs::new(tier)),
+        "wdl_conv" => Box::new(wdl::WdlConv::new(tier)),
+        _ => panic!("space {name}"),
+    }
+}
+
+fn repro_coords() {
+    println!("// stand-alone reproduction: wow_wdt::world_to_tile(tile_to_world(x, y)) != (x, y)");
+    let mut bad = 0;
+    let mut first = None;
+    for y in 0..64u32 {
+        for x in 0..64u32 {
+            let (wx, wy) = wow_wdt::tile_to_world(x, y);
+            let t = wow_wdt::world_to_tile(wx, wy);
+            if t != (x, y) {
+                bad += 1;
+                if first.is_none() {
+                    first = Some((x, y, wx, wy, t));
+                }
+            }
+        }
+    }
+    if let Some((x, y, wx, wy, t)) = first {
+        println!("first: tile_to_world({x},{y}) = ({wx},{wy}); world_to_tile({wx},{wy}) = {:?}  (expected ({x},{y}))", t);
+    }
+    let bad_axis: Vec<u32> = (0..64u32).filter(|&k| wow_wdt::world_to_tile(0.0, wow_wdt::tile_to_world(k, 0).1).0 != k).collect();
+    println!("{bad} of 4096 tiles do not invert; per-axis indices that come back as index-1: {:?}", bad_axis);
+}
+
+fn main() {
+    let args: Vec<String> = std::env::args().collect();
+    if args.get(1).map(|s| s.as_str()) == Some("--repro") {
+        match args.get(2).map(|s| s.as_str()) {
+            Some("coords") | None => repro_coords(),
+            Some(o) => eprintln!("unknown repro {o}"),
+        }
+        return;
+    }
+    let Mode::Supervisor(mut c) = start("C18", "exploration", build) else { return };
+    let tier = c.tier;
+    c.rule = "WDT: case = (version Classic..BfA x MAID mode [BfA only: none / 8 sections+flag+header ids / 5 sections / chunk without flag / flag without chunk]) x tile grid (14 patterns: empty, full, rows, columns, checker, L-shape, corners, asymmetric pair, triangle, sparse; plus every single tile of the 4096) x value mode (plain / hashed flags+area ids also on absent tiles, distinct header words) x MPHD flag set (quick: none, each single bit, all, 2 alternating; thorough: + all bit pairs; space wdt_flags: quick all words with <=2 of the 16 bits, thorough all 65536 words) x object shape (8: terrain with no / empty / named MWMO, terrain+MODF, WMO-only with 0/1/3 names and placements, boundary floats). Each case: build through the public API, write, walk the bytes independently, read back, compare every field, write again. wdt_conv: every (from,to) of 8x8 versions (+BfA-with-MAID source) x grids x values x 4 flag sets x 8 object shapes: MAIN entries unchanged, converted file round-trips and its bytes hold the source tiles. WDL: versions Vanilla..Legion x tile set (same 14 patterns; every single tile; wdl_pairs: ordered pairs of tiles, first tile (with holes) from the 4 corners + an asymmetric lattice [quick 2x2, thorough 16x16], second tile (without holes) each of the other 4095) x heights (zeros / ramp with i16 extremes / hashed per tile) x holes (none / all default / hashed on all / hashed on a third of the tiles; versions with MAHO) x model shapes (names,placements in {0,1,3}; Legion ML chunks {0,1,3}); wdl_conv: 6x6 version pairs. coords: all 4096 tiles. A case is non-trivial unless it is the all-empty file; distinct by its axis tuple.".into();
+    c.assume("content equality is judged field by field on bit patterns; fields the writer recomputes or the reader re-derives are excluded: WDL map_tile_offsets and chunks list, WDT version_config (the reader re-detects a version from chunk presence), and the MPHD something/unused <-> file-id aliasing (the 7 header dwords are compared under the interpretation selected by flag 0x200)");
+    c.assume("WDT MWMO follows the documented version rule: a terrain map's MWMO list is not emitted from Cataclysm on; the definition's expected content after read is adjusted by that rule (non-empty terrain name lists dropped this way are counted, not judged)");
+    c.assume("inputs are valid definitions: names are non-empty UTF-8 without NUL, no NaN floats, height vectors are 289+256 long, holes only on tiles with heights and only in versions with MAHO, WMO chunks only in Wotlk..Wod and with a non-empty name list when placements exist, ML chunks only in Legion, MPHD flags within the 16 named bits, MAID only in BfA");
+    c.assume("conversion must preserve MAIN flags/area ids (WDT) and heights, and holes when both versions store them (WDL); MODF scale/unique id rewrites, added empty MAID and model-format conversions are not tile data; an Err from the converter counts as a refusal");
+    c.assume("walker and layouts are taken from /repo/docs/src/formats/world-data/{wdt,wdl}.md and docs/src/resources/coordinates.md (tile size 533.33333, [y][x] row-major grids)");
+    let spaces = ["coords", "wdt_main", "wdt_single", "wdt_flags", "wdt_conv", "wdl_main", "wdl_single", "wdl_pairs", "wdl_conv"];
+    for s in spaces {
+        c.run_space(s, "");
+    }
+    c.extra_cov.insert(
+        "axes".into(),
+        json!({
+            "coords_tiles": 4096,
+            "wdt_versions": 8, "wdt_version_x_maid_modes": 12, "wdt_grid_patterns": 14, "wdt_single_tiles": 4096, "wdt_value_modes": 2,
+            "wdt_flag_sets_main": wdt::flagsets(tier == Tier::Thorough).len(), "wdt_flag_words_flags_space": tier.pick(138, 65536), "wdt_object_shapes": 8,
+            "wdt_conv_version_pairs": 72,
+            "wdl_versions": 6, "wdl_tile_patterns": 14, "wdl_single_tiles": 4096, "wdl_height_modes": 3, "wdl_hole_modes": 4, "wdl_model_shapes": 6,
+            "wdl_pairs_first_tiles": tier.pick(8, 260), "wdl_pairs_second_tiles": 4095, "wdl_conv_version_pairs": 36
+        }),
+    );
+    c.finish();
+}
